@@ -188,7 +188,30 @@ func negB(a *big.Int) *big.Int {
 	return new(big.Int).Neg(a)
 }
 
+// asInt returns the Int term t such that a == to_real(t), if a has that shape.
+func asInt(a *Term) (*Term, bool) {
+	if a.op == OToReal {
+		return a.args[0], true
+	}
+	if r, ok := a.RatVal(); ok && r.IsInt() {
+		return BigC(r.Num()), true
+	}
+	return nil, false
+}
+
+func bothInt(a, b *Term) (*Term, *Term, bool) {
+	if a.op != OToReal && b.op != OToReal {
+		return nil, nil, false
+	}
+	x, ok1 := asInt(a)
+	y, ok2 := asInt(b)
+	return x, y, ok1 && ok2
+}
+
 func Add(a, b *Term) *Term {
+	if x, y, ok := bothInt(a, b); ok && a.sort == SReal && b.sort == SReal {
+		return ToReal(Add(x, y))
+	}
 	if a.sort == SReal {
 		if x, ok := a.RatVal(); ok {
 			if y, ok := b.RatVal(); ok {
@@ -226,6 +249,9 @@ func Add(a, b *Term) *Term {
 }
 
 func Sub(a, b *Term) *Term {
+	if x, y, ok := bothInt(a, b); ok && a.sort == SReal && b.sort == SReal {
+		return ToReal(Sub(x, y))
+	}
 	if a.sort == SReal {
 		if x, ok := a.RatVal(); ok {
 			if y, ok := b.RatVal(); ok {
@@ -249,6 +275,9 @@ func Sub(a, b *Term) *Term {
 }
 
 func Neg(a *Term) *Term {
+	if a.sort == SReal && a.op == OToReal {
+		return ToReal(Neg(a.args[0]))
+	}
 	if a.sort == SReal {
 		if x, ok := a.RatVal(); ok {
 			return RatC(new(big.Rat).Neg(x))
@@ -264,6 +293,9 @@ func Neg(a *Term) *Term {
 }
 
 func Mul(a, b *Term) *Term {
+	if x, y, ok := bothInt(a, b); ok && a.sort == SReal && b.sort == SReal {
+		return ToReal(Mul(x, y))
+	}
 	if a.sort == SReal {
 		if x, ok := a.RatVal(); ok {
 			if y, ok := b.RatVal(); ok {
@@ -462,6 +494,20 @@ func Eq(a, b *Term) *Term {
 				return BoolC(x.Cmp(y) == 0)
 			}
 		}
+		if x, y, ok := bothInt(a, b); ok {
+			return Eq(x, y)
+		}
+		// to_real(k) = non-integral constant
+		if a.op == OToReal {
+			if r, ok := b.RatVal(); ok && !r.IsInt() {
+				return False
+			}
+		}
+		if b.op == OToReal {
+			if r, ok := a.RatVal(); ok && !r.IsInt() {
+				return False
+			}
+		}
 	}
 	return mk(OEq, SBool, a, b)
 }
@@ -478,6 +524,9 @@ func coerce(a, b *Term) (*Term, *Term) {
 
 func Lt(a, b *Term) *Term {
 	a, b = coerce(a, b)
+	if x, y, ok := bothInt(a, b); ok && a.sort == SReal {
+		return Lt(x, y)
+	}
 	if a.sort == SReal {
 		if x, ok := a.RatVal(); ok {
 			if y, ok := b.RatVal(); ok {
@@ -505,6 +554,9 @@ func Lt(a, b *Term) *Term {
 
 func Le(a, b *Term) *Term {
 	a, b = coerce(a, b)
+	if x, y, ok := bothInt(a, b); ok && a.sort == SReal {
+		return Le(x, y)
+	}
 	if a.sort == SReal {
 		if x, ok := a.RatVal(); ok {
 			if y, ok := b.RatVal(); ok {
@@ -640,6 +692,11 @@ func Ite(c, a, b *Term) *Term {
 		return a
 	}
 	a, b = coerce(a, b)
+	if a.sort == SReal {
+		if x, y, ok := bothInt(a, b); ok {
+			return ToReal(Ite(c, x, y))
+		}
+	}
 	if a.sort == SBool {
 		if x, ok := a.BoolVal(); ok {
 			if y, ok := b.BoolVal(); ok {
